@@ -13,7 +13,7 @@
       [ack_ranges_ok]           descending, Smallest <= Largest, disjoint and non-adjacent
       [pending tr]              receive time of the first accepted, still unacknowledged ack-eliciting app-data packet *)
 From Coq Require Import List ZArith Bool.
-From V Require Import Gen.Params RecvPH.Model RecvPH.ProofsHist RecvPH.ProofsAck RecvPH.ProofsDue RecvPH.ProofsDup.
+From V Require Import Gen.Params RecvPH.Model RecvPH.ProofsHist RecvPH.ProofsAck RecvPH.ProofsDue RecvPH.ProofsDup RecvPH.ProofsMissing.
 Import ListNotations.
 Open Scope Z_scope.
 
@@ -134,6 +134,15 @@ Theorem C07_duplicate_refused : forall (ops : list op) pn ecn lvl t ae,
 Proof. exact handler_dup_refused. Qed.
 Print Assumptions C07_duplicate_refused.
 
+(** (b) "covered": whatever is flagged and not below the forget threshold is in the ACK. *)
+Theorem C07_ack_covers_flagged : forall (ops : list op) lvl now only f,
+  let h := fst (run newHandler ops) in
+  snd (h_get_ack h lvl now only) = Some f ->
+  exists sp x, sp_of lvl = Some sp /\ hist_of h sp = Some x /\
+    forall q, is_dup x q = true -> deletedBelow x <= q -> inR q (aRanges f).
+Proof. exact ack_covers_flagged. Qed.
+Print Assumptions C07_ack_covers_flagged.
+
 (** REFUTED reading of (c) (DESIGN.md: "p >= Start of the lowest tracked range"): after the limit
     has dropped a range, a later lower packet opens a new lowest range below a forgotten number. *)
 Theorem C07_duplicate_lowstart_refuted :
@@ -166,6 +175,18 @@ Theorem C07_ack_queued_rules : forall a pn ecn t,
   aAckQueued (fst (app_recv a pn ecn t true)) = true.
 Proof. exact ack_queued_rules. Qed.
 Print Assumptions C07_ack_queued_rules.
+
+(** (b) "when it fills a gap": an accepted ack-eliciting packet that the last generated ACK frame
+    ([tLastAck], Go's [lastAck]) reported missing queues an ACK at once, after every history. The
+    binary search of AckFrame.AcksPacket is part of the model (lemma acksPacket_spec). *)
+Theorem C07_ack_queued_when_missing : forall (ops : list op) pn ecn t la l,
+  let a := hApp (fst (run newHandler ops)) in
+  tLastAck (aTr a) = Some la -> largestAcked la = Some l ->
+  aIgnoreBelow a <= pn -> pn < l -> ~ inR pn la ->
+  snd (app_recv a pn ecn t true) = Ok3 ->
+  aAckQueued (fst (app_recv a pn ecn t true)) = true.
+Proof. exact ack_queued_when_missing. Qed.
+Print Assumptions C07_ack_queued_when_missing.
 
 (** (b) Initial / Handshake: an accepted ack-eliciting packet makes GetAckFrame non-nil at once. *)
 Theorem C07_ack_immediate : forall h pn ecn lvl t now only sp x,
